@@ -157,6 +157,20 @@ def gen_ulam_int(rng):
     return lit, dict(states=states, n=n)
 
 
+def gen_ulam3_int(rng):
+    states = [rng.randint(1, 3), rng.randint(1, 3), rng.randint(1, 3)]
+    n = rng.randint(1, 8)
+    cols = [[rng.randint(1, states[k % 3]) for k in range(6)] for _ in range(n)]
+    tr = np.array(cols, dtype=int).T
+    u1, i1 = np.unique(tr[[0, 3], :], axis=1, return_inverse=True)
+    u2, i2 = np.unique(tr[[2, 5], :], axis=1, return_inverse=True)
+    op = ulam.ulam_3d(tr, states, 1)
+    lit = [3, [states[0], states[1], states[2], [[v - 1 for v in c] for c in cols],
+               [[int(u1[0, i]) - 1, int(u1[1, i]) - 1] for i in range(u1.shape[1])], [int(v) for v in np.ravel(i1)],
+               [[int(u2[0, i]) - 1, int(u2[1, i]) - 1] for i in range(u2.shape[1])], [int(v) for v in np.ravel(i2)]], lib.tt_out_lit(op)]
+    return lit, dict(states=states, n=n)
+
+
 def run(ctx):
     quick = ctx.tier == 'quick'
     lib.stage_proof(ctx, PROP_FILES, ['Check/C12.vo'])
@@ -164,7 +178,7 @@ def run(ctx):
     cases, metas = [], []
     for k in range(n):
         cs = ctx.rng.getrandbits(48)
-        for gen, name in ((gen_slim_int, 'slim'), (gen_ulam_int, 'ulam2d')):
+        for gen, name in ((gen_slim_int, 'slim'), (gen_ulam_int, 'ulam2d'), (gen_ulam3_int, 'ulam3d')):
             try:
                 lit, d = gen(random.Random(cs))
             except lib.InexactValue:
@@ -197,7 +211,7 @@ def run(ctx):
 
 TRUSTED = ['Coq 8.16.1 kernel + vm_compute', 'harness (generators, SVD tape, literal printer)', 'SVD: value conjunct only (L.M = super-core); numpy.unique as oracle (spec: inverse index points at the pair)',
            'IEEE rounding not modelled']
-RULE = ('correspondence: integer rates, random single-/two-cell reaction lists, open and cyclic chains, unequal cell sizes, threshold 0 / >0, SVD tape (arbitrary / exact answers); ulam_2d with numpy.unique output as oracle; '
+RULE = ('correspondence: integer rates, random single-/two-cell reaction lists, open and cyclic chains, unequal cell sizes, threshold 0 / >0, SVD tape (arbitrary / exact answers); ulam_2d and ulam_3d with numpy.unique output as oracle; '
         'side check: dense master-equation generator by state enumeration, column sums, off-diagonals; Ulam 2-D/3-D against a direct histogram; distinct/non-trivial = (op, cyclic, oracle kind, unequal cells) cells')
 
 
